@@ -5,6 +5,7 @@ import SimpleDnsModel.Model.NameText
 import SimpleDnsModel.Model.Txt
 import SimpleDnsModel.Model.Mdns
 import SimpleDnsModel.Spec.RdataSchemas
+import SimpleDnsModel.Model.Writer
 import SimpleDnsModel.Spec.NameDecode
 import SimpleDnsModel.Spec.Rfc1035Header
 open Dns Dns.Text
@@ -234,6 +235,19 @@ def answer (ts : List String) : String :=
       | none => "none"
     | some (.ipseckey p a g k, []) => "ok " ++ hexOfBytes (Spec.encodeIpseckey p a (gwToSpec g) k)
     | _ => "bad-op"
+  | "write" :: kind :: pos :: prefill :: mode :: rest =>
+    match pos.toNat?, bytesOfHex prefill, pPacket rest with
+    | some pos, some buf, some (p, []) =>
+      let k : Option WKind := match kind with
+        | "vec" => some .vec | "cv" => some .cursorVec | "cf" => some .cursorFixed | "sl" => some .slice
+        | _ => none
+      match k with
+      | none => "bad-op"
+      | some k =>
+        let w : W := { kind := k, buf := buf, pos := pos }
+        let r := if mode == "comp" then p.writeCompressedTo w else p.writeTo w
+        showOut (fun w => hexOfBytes w.buf ++ " " ++ toString w.pos) r
+    | _, _, _ => "bad-op"
   | ["type", c] =>
     match c.toNat? with
     | some c => (TYPE.ofCode c).mnemonic ++ " " ++ toString (TYPE.ofCode c).toCode
